@@ -21,6 +21,7 @@ PLAT = """<?xml version='1.0'?>
 """
 TYID = {"d": 0, "i": 1, "c": 2, "b": 6}       # Datatype::encode of MPI_DOUBLE, MPI_INT, MPI_CHAR, MPI_BYTE
 KEY_RECV0 = "ti-coll-recvcount-zero-omitted"
+KEY_STALE = "replay-test-stale-null-request"
 
 
 def gen_prog(rng):
@@ -30,7 +31,7 @@ def gen_prog(rng):
     for _ in range(rng.range(3, 10)):
         k = rng.choice(["p2p", "ring", "nb", "barrier", "bcast", "reduce", "allreduce", "alltoall", "gather", "scatter",
                         "allgather", "gatherv", "scatterv", "allgatherv", "alltoallv", "reducescatter", "gather",
-                        "p2p", "nb"])
+                        "p2p", "nb", "shift", "scan", "exscan", "nbt", "poll"])
         ty = rng.choice(["i", "d", "c", "b"])
         cnt = rng.choice([1, 2, 10, 100, 1000, 5000, 20000, 3, 7])
         if k in ("reduce", "allreduce", "reducescatter"):
@@ -40,8 +41,21 @@ def gen_prog(rng):
             a = rng.below(n)
             b = (a + 1 + rng.below(n - 1)) % n
             st.update(src=a, dst=b, tag=rng.range(0, 9), cnt=cnt, order=rng.below(2))
+        elif k == "nbt":                             # isend / irecv, one MPI_Test on each side, waitall
+            a = rng.below(n)
+            b = (a + 1 + rng.below(n - 1)) % n
+            st.update(src=a, dst=b, tag=rng.range(0, 9), cnt=cnt)
+        elif k == "poll":                            # isend, MPI_Test until it succeeds; keys (src, dst, tag) unique per program
+            a = rng.below(n)
+            b = (a + 1 + rng.below(n - 1)) % n
+            st.update(src=a, dst=b, tag=100 + len(steps), cnt=rng.choice([10, 5000, 200000]))
         elif k == "ring":
             st.update(tag=rng.range(0, 9), cnt=rng.choice([1, 10, 1000, 20000]), waitall=rng.below(2))
+        elif k == "shift":                           # MPI_Sendrecv ring shift (tags 0: the TI record has no tags)
+            st.update(cnt=rng.choice([1, 10, 1000, 20000]), by=rng.range(1, n - 1) if n > 2 else 1)
+        elif k in ("scan", "exscan"):
+            st["ty"] = rng.choice(["i", "d"])
+            st.update(cnt=cnt)
         elif k in ("bcast", "reduce"):
             st.update(cnt=cnt, root=rng.below(n))
         elif k == "allreduce":
@@ -96,6 +110,29 @@ def expand(prog):
                 lines += ["%d waitall" % a, "%d wait 0" % b]
                 exp[a].append(("waitall", [1]))
                 exp[b].append(("wait", [a, b, st["tag"]]))
+        elif k == "nbt":
+            a, b = st["src"], st["dst"]
+            lines.append("%d isend %d %d %d %s" % (a, b, st["tag"], st["cnt"], t))
+            lines.append("%d irecv %d %d %d %s" % (b, a, st["tag"], st["cnt"], t))
+            lines += ["%d test 0" % a, "%d test 0" % b, "%d waitall" % a, "%d waitall" % b]
+            exp[a] += [("isend", [b, st["tag"], st["cnt"], ti]), ("test", [a, b, st["tag"]]), ("waitall", [1])]
+            exp[b] += [("irecv", [a, st["tag"], st["cnt"], ti]), ("test", [a, b, st["tag"]]), ("waitall", [1])]
+        elif k == "poll":
+            a, b = st["src"], st["dst"]
+            lines.append("%d isend %d %d %d %s" % (a, b, st["tag"], st["cnt"], t))
+            lines.append("%d recv %d %d %d %s" % (b, a, st["tag"], st["cnt"], t))
+            lines.append("%d poll 0" % a)
+            exp[a] += [("isend", [b, st["tag"], st["cnt"], ti]), ("test+", [a, b, st["tag"]])]   # one or more test lines
+            exp[b].append(("recv", [a, st["tag"], st["cnt"], ti]))
+        elif k == "shift":
+            for r in range(n):
+                dst, src = (r + st["by"]) % n, (r - st["by"]) % n
+                lines.append("%d sendrecv %d %d %d %s" % (r, dst, src, st["cnt"], t))
+                exp[r].append(("sendRecv", [st["cnt"], dst, st["cnt"], src, ti, ti]))
+        elif k in ("scan", "exscan"):
+            lines.append("* %s %d %s" % (k, st["cnt"], t))
+            for r in range(n):
+                exp[r].append((k, [st["cnt"], 0, ti]))
         elif k == "ring":
             for r in range(n):
                 right, left = (r + 1) % n, (r - 1) % n
@@ -170,6 +207,53 @@ def expand(prog):
                 lines.append("%d alltoallv %s %s %s" % (r, t, " ".join(map(str, sc)), " ".join(map(str, rc))))
                 exp[r].append(("alltoallv", [sum(sc)] + sc + [sum(rc)] + rc + [ti, ti]))
     return lines, exp
+
+
+def match_shape(got, exp):
+    """got: trace records (token lists), exp: expected (name, args) with `test+` = one or more `test` lines.
+    -> list of (expected name, expected args, got tokens) or None"""
+    out = []
+    i = 0
+    for name, args in exp:
+        if name == "test+":
+            k = 0
+            while i < len(got) and got[i][0] == "test":
+                out.append(("test", args, got[i]))
+                i += 1
+                k += 1
+            if k == 0:
+                return None
+        else:
+            if i >= len(got) or got[i][0] != name:
+                return None
+            out.append((name, args, got[i]))
+            i += 1
+    return out if i == len(got) else None
+
+
+def has_stale(prog):
+    """two polls (isend completed by MPI_Test, never waited for) with the same (src, dst, tag): the witness class of the
+    stale null entry in the replay storage"""
+    seen = set()
+    for st in prog["steps"]:
+        if st["k"] == "poll":
+            key = (st["src"], st["dst"], st["tag"])
+            if key in seen:
+                return True
+            seen.add(key)
+    return False
+
+
+def report(ctx, what, case, key):
+    """a defect that is not (yet) registered in known_findings.txt is printed and recorded, but does not fail the check
+    (the check of the unchanged tree must stay at exit 0); once registered it goes through ctx.violation (KNOWN-FINDING)"""
+    if key == KEY_STALE and KEY_STALE not in core.known_findings().get(ctx.pid, {}):
+        print("PROPOSED-FINDING: property=%s key=%s %s" % (ctx.pid, key, what[:240]))
+        ctx.cov.setdefault("proposed_findings_hit", [])
+        if key not in ctx.cov["proposed_findings_hit"]:
+            ctx.cov["proposed_findings_hit"].append(key)
+        return
+    ctx.violation(what, case, key=key)
 
 
 def has_recv0(prog):
@@ -250,7 +334,8 @@ def run(ctx):
         "equal sequences of communication calls with equal sizes give equal simulated dates: NOT proved, validated only by "
         "the online-vs-replay comparison on the generated programs (cluster platform, smpi/simulate-computation:no)",
         "number <-> decimal text and Datatype::encode/decode are inverse of each other (exercised, not modelled)",
-        "test / Waitany / Sendrecv / Scan and computation lines are not generated",
+        "Waitany / Ssend and computation lines are not generated; MPI_Test is generated in two patterns only (one test before "
+        "a waitall; polling until success with a (src, dst, tag) that is unique in the program)",
         "date comparison tolerance: 1e-9 relative + 1e-9 s (the configured precision/timing) per call of the rank"]
     ctx.ensure_simgrid(["simgrid", "smpimain", "smpireplaymain"])
     ctx.lean_prove()
@@ -280,7 +365,7 @@ def run(ctx):
     nrep = 0
     for pi, prog in enumerate(progs):
         lines, exp = expand(prog)
-        key = KEY_RECV0 if has_recv0(prog) else None
+        key = KEY_RECV0 if has_recv0(prog) else (KEY_STALE if has_stale(prog) else None)
         dates, trace, tr = R.online(prog, lines, "p")
         if dates is None and "loading shared libraries" in str(tr):
             ctx.ensure_simgrid(["simgrid", "smpimain", "smpireplaymain"])    # the shared build was being relinked: wait
@@ -292,15 +377,16 @@ def run(ctx):
         ok_shape = True
         for r in range(n):
             got = [t for t in trace.get(r, []) if t[0] not in ("init", "finalize")]
-            if [g[0] for g in got] != [e[0] for e in exp[r]]:
+            m = match_shape(got, exp[r])
+            if m is None:
                 ok_shape = False
                 ctx.violation("the TI trace of rank %d does not list the calls the program issued: %s vs %s"
                               % (r, [g[0] for g in got], [e[0] for e in exp[r]]), {"prog": prog}, key="ti-call-list")
                 break
-            for g, e in zip(got, exp[r]):
-                dlines.append("%d %s %s => %s" % (n, e[0], " ".join(map(str, e[1])), " ".join(g[1:])))
+            for name, args, g in m:
+                dlines.append("%d %s %s => %s" % (n, name, " ".join(map(str, args)), " ".join(g[1:])))
                 owners.append((pi, r))
-                kinds[e[0]] = kinds.get(e[0], 0) + 1
+                kinds[name] = kinds.get(name, 0) + 1
         if not ok_shape:
             continue
         last, err = R.replay(prog, tr)
@@ -309,7 +395,7 @@ def run(ctx):
             last, err = R.replay(prog, tr)
         ctx.cov["evaluations"] += 1
         if last is None:
-            ctx.violation("replaying the recorded TI trace fails: " + err[-300:], {"prog": prog, "script": lines}, key=key)
+            report(ctx, "replaying the recorded TI trace fails: " + err[-300:], {"prog": prog, "script": lines}, key)
             continue
         bad = []
         for r in range(n):
@@ -318,12 +404,13 @@ def run(ctx):
             a, b = dates.get(r), last.get(r)
             # 1e-9 relative, plus one quantum of the configured timing precision (smpirun: precision/timing:1e-9 s)
             # per call of the rank: online and replayed runs differ by < 1e-9 s on some programs
-            tol = Fraction(1, 10**9) * max(abs(a or 0), abs(b or 0)) + Fraction(len(exp[r]) + 1, 10**9)
+            ncalls = len([t for t in trace.get(r, [])])
+            tol = Fraction(1, 10**9) * max(abs(a or 0), abs(b or 0)) + Fraction(ncalls + 1, 10**9)
             if a is None or b is None or abs(a - b) > tol:
                 bad.append((r, float(a) if a is not None else None, float(b) if b is not None else None))
         if bad:
-            ctx.violation("per-rank completion dates differ between the online run and the replay: %s" % bad[:4],
-                          {"prog": prog, "script": lines, "dates": bad}, key=key)
+            report(ctx, "per-rank completion dates differ between the online run and the replay: %s" % bad[:4],
+                   {"prog": prog, "script": lines, "dates": bad}, key)
         else:
             nrep += 1
             ctx.cov["distinct_nontrivial"] += 1
